@@ -123,6 +123,12 @@ void FrameSet::handleMatch(const internal::RangePatternMatch* match, Status* ok)
 
         char mod = match->stepMod[0];
 
+        // The sign of the step carries no meaning: the direction
+        // always follows the range itself (start -> end)
+        if (mod != 'x' && step < 0) {
+            step = -step;
+        }
+
         switch (mod) {
 
         case 'x':
@@ -134,13 +140,14 @@ void FrameSet::handleMatch(const internal::RangePatternMatch* match, Status* ok)
             // This approach will add excessive amounts of singe
             // range elements. They could be compressed into chunks
             Frame skip = start;
-            Range aRange(start, end, 1);
+            long inc = (start > end) ? -1 : 1;
+            Range aRange(start, end, inc);
             RangeIterator it = aRange.iterValues();
             Frame val;
             while (it.next()) {
                 val = (*it);
                 if (val == skip) {
-                    skip += step;
+                    skip += step * inc;
                     continue;
                 }
                 m_frameData->ranges.appendUnique(val, val, 1);
